@@ -6,7 +6,7 @@ LEVEL = "model_checking"
 
 def run(tier, seed, limit=0):
     chk = engine.Check("C03", tier, seed)
-    scs = fam_hist.family_H(tier, seed) + fam_expr.family_N(tier, seed, per_kind=3 if tier == "quick" else 20)
+    scs = fam_hist.family_H(tier, seed) + fam_expr.family_N(tier, seed, per_kind=3 if tier == "quick" else 20) + fam_hist.family_objlist_randmode(tier, seed)
     # three-level trees with random / non-random members and object lists: non-random members and everything below them
     scs += fam_tree.family_T(tier, seed, n=8 if tier == "quick" else 100, probes=True, tag="T03") + fam_tree.family_nonrand_member(tier, seed)
     mc_scs, sim_states = fam_mc.family_mc(tier, seed)          # TLC-generated behaviours of MC_VscRand, replayed
